@@ -57,8 +57,10 @@ def Libs.of (L : Libs) : C07.Variant → C07.Lib
 /-- the library a build uses for the blocks of a directory with default encoder `encId` -/
 def libFor (c : Config) (L : Libs) (encId : Nat) : C07.Lib := L.of (c.variant encId)
 
-/-- what the reader build's decoder makes of a stored block -/
-def decFor (r : Config) (L : Libs) (encId : Nat) : C01.Bytes → Option C01.Bytes := (libFor r L encId).dec
+/-- what the reader build's decoder makes of a stored block:
+    the decoder a reader build uses for blocks of a database written with encoder `encId` (C01's reader
+    picks the decoder by the type stored with the block; C02's databases use one encoder throughout) -/
+def decFor (r : Config) (L : Libs) (encId : Nat) : Nat → C01.Bytes → Option C01.Bytes := fun _ => (libFor r L encId).dec
 
 /-- one `WriteBlocks` call as performed by build `w`: eight columns, and every stored encoder
     output is what `w`'s Compress wrapper wrote for the raw bytes — with SOME scratch buffer (GPFile
